@@ -271,6 +271,42 @@ def relate(target_func, caller_flat, caller_sig, cr):
     return out
 
 
+def render_actual(target_func, caller_flat, caller_sig, cr):
+    """the kernel call as it really happened, in the notation of the model's `renderCall`:
+    {param: token}; token `~m` = the caller's value of parameter m without units, `m` = still
+    carrying units, `?p` = a value the caller did not pass.  Found by *search* over the caller's
+    parameters (independent of `relate`)."""
+    recv, _ = bind(target_func, cr["args"], cr["kwargs"])
+    if recv is None:
+        return None
+    out = {}
+    for n, r in recv.items():
+        src = None
+        if n in caller_flat and eq_stripped(r, caller_flat[n]):
+            src = n
+        else:
+            for m, c in caller_flat.items():
+                if isinstance(r, (np.ndarray, list, tuple)) and isinstance(c, (np.ndarray, list, tuple)) and eq_stripped(r, c):
+                    src = m
+                    break
+        if src is None:
+            d = default_of(caller_sig, n)
+            if n not in caller_flat and d is not _MISSING and (d is r or (d is not np._NoValue and eq_stripped(r, d))):
+                continue  # a default spelled out
+            out[n] = "?" + n
+        else:
+            if src == "out" and isinstance(caller_flat[src], np.ndarray) and not aliases(r, caller_flat[src]):
+                out[n] = "?" + n
+            else:
+                out[n] = ("" if has_quantity(r) else "~") + src
+    for n, c in caller_flat.items():
+        if n not in recv:
+            d = default_of(caller_sig, n)
+            if d is not _MISSING and (d is c or (d is not np._NoValue and eq_stripped(d, c))):
+                out[n] = "~" + n  # the default, elided: the kernel uses the same value
+    return out
+
+
 # --------------------------------------------------------------------------------------
 # tracing one catalogue case
 
@@ -297,6 +333,7 @@ def trace_case(t, dk, sc, seed, out_mode="unyt", units=("m", "s", "kg")):
         def on_call(cr):
             tf = C.resolve(cr["target"]) if cr["target"].startswith("numpy") else None
             cr["verdicts"] = relate(tf, caller_flat, caller_sig, cr) if tf is not None else None
+            cr["render"] = render_actual(tf, caller_flat, caller_sig, cr) if tf is not None else None
             analysed.append(cr)
 
         rec.on_call = on_call
@@ -322,6 +359,8 @@ def trace_case(t, dk, sc, seed, out_mode="unyt", units=("m", "s", "kg")):
     }
     post = "none"
     params = []
+    rec_out["caller"] = [(k, "q" if has_quantity(v) else "b") for k, v in caller_flat.items()]
+    rec_out["render"] = top[0].get("render") if top else None
     if top:
         # the handler's own kernel call is the first one recorded
         k0 = top[0]
